@@ -53,7 +53,7 @@ var c18Names = []string{"eth", "ethereum/gas", "bnb", "bsc/gas", "hub"}
 
 // price sets: value of every required name; set 2 omits a required price
 func c18Prices(set int64) *oracletypes.Prices {
-	base := map[int64]int64{0: 100, 1: 300, 3: 200}[set]
+	base := map[int64]int64{0: 100, 1: 300, 3: 200, 4: 300}[set]
 	var l []*oracletypes.Price
 	for i, n := range c18Names {
 		if set == 2 && i == 4 {
@@ -64,6 +64,10 @@ func c18Prices(set int64) *oracletypes.Prices {
 			b = 500
 		}
 		l = append(l, &oracletypes.Price{Name: n, Value: sdk.NewDec(b + int64(i))})
+		if set == 4 {
+			// set 4 = set 1 with every entry listed twice: still ONE report of that validator
+			l = append(l, &oracletypes.Price{Name: n, Value: sdk.NewDec(b + int64(i))})
+		}
 	}
 	return &oracletypes.Prices{List: l}
 }
@@ -133,6 +137,9 @@ func (c *C18) Ops(s *HState) []engine.Op {
 			ops = append(ops, engine.OpN("Price", v, 0, set))
 		}
 		ops = append(ops, engine.OpN("Price", v, -1, 0), engine.OpN("Price", v, 1, 1))
+		if v == 0 {
+			ops = append(ops, engine.OpN("Price", v, 0, 4)) // every name listed twice
+		}
 		for l := 0; l < 3; l++ {
 			ops = append(ops, engine.OpN("Holders", v, 0, l))
 		}
@@ -275,6 +282,7 @@ func (c *C18) changeOracle(in *hub.Instance, g *c18Ghost, pre c18Stored, boundar
 					if p.Name == name {
 						vals = append(vals, wv{p.Value, r.stake})
 						W += r.stake
+						break // one report per validator and name, however often the name is listed
 					}
 				}
 			}
